@@ -184,7 +184,9 @@ var producers = []producer{
 	}),
 	over("Iterator.Map", func(x *mc.X) (string, func(*env, fp.Iterator[int]) fp.Iterator[int], func([]int) []int) {
 		f := func(v int) int { return v + 10 }
-		return "Map(+10)", func(e *env, in fp.Iterator[int]) fp.Iterator[int] { return in.Map(func(v int) int { e.tick(); return f(v) }) }, func(d []int) []int { return mapInts(d, f) }
+		return "Map(+10)", func(e *env, in fp.Iterator[int]) fp.Iterator[int] {
+			return in.Map(func(v int) int { e.tick(); return f(v) })
+		}, func(d []int) []int { return mapInts(d, f) }
 	}),
 	{"Iterator.Concat", func(x *mc.X, inputs [][]int) {
 		shape := x.Choose(4, "shape")
@@ -475,7 +477,9 @@ var producers = []producer{
 			fs := []fp.Func1[int, fp.Func1[int, fp.Func1[int, int]]]{}
 			for i := 0; i < nf; i++ {
 				k := 10 * (i + 1)
-				fs = append(fs, func(a int) fp.Func1[int, fp.Func1[int, int]] { return curried2(func(b, c int) int { return a + b + c + k }) })
+				fs = append(fs, func(a int) fp.Func1[int, fp.Func1[int, int]] {
+					return curried2(func(b, c int) int { return a + b + c + k })
+				})
 			}
 			return iterator.Flap3(fp.IteratorOfSeq(fs))(1)(2)(3)
 		}})
